@@ -79,7 +79,7 @@ func plan() []planItem {
 	if report.Tier() == "thorough" {
 		return []planItem{{0, 3, 7}, {1, 3, 7}, {2, 2, 7}, {3, 1, 9}, {4, 7, 6}}
 	}
-	return []planItem{{0, 6, 6}, {1, 5, 6}, {2, 5, 6}}
+	return []planItem{{0, 7, 6}, {1, 7, 6}, {2, 2, 5}}
 }
 
 type slot struct {
@@ -88,7 +88,11 @@ type slot struct {
 
 func slots() []slot {
 	var out []slot
+	depthCap, _ := strconv.Atoi(os.Getenv("C02_DEPTHCAP")) // debugging / mutation runs
 	for _, p := range plan() {
+		if depthCap > 0 && p.Depth > depthCap {
+			p.Depth = depthCap
+		}
 		for s := 0; s < p.Workers; s++ {
 			out = append(out, slot{p.Dist, s, p.Workers, p.Depth})
 		}
@@ -482,9 +486,6 @@ func (e *env) post(ctx sdk.Context, g *ghost, count bool) *explore.Fail {
 			}
 		}
 	}
-	if got := e.cursor(ctx); got != g.Cursor {
-		return explore.Failf("order:cursor-moved-without-observation", "last observed nonce is %d; last reset / observations of this epoch give %d", got, g.Cursor)
-	}
 	// effects: exactly once per observed claim
 	bal := new(big.Int).Sub(e.w.Balance(ctx, e.rcv.Addr, e.denom), e.bal0).Int64()
 	if bal > g.Minted {
@@ -507,6 +508,9 @@ func (e *env) post(ctx sdk.Context, g *ghost, count bool) *explore.Fail {
 	}
 	if (len(batches) == 0) != g.BatchDone {
 		return explore.Failf("effect:batch-deletion", "%d open batches while batch executed = %v", len(batches), g.BatchDone)
+	}
+	if got := e.cursor(ctx); got != g.Cursor {
+		return explore.Failf("order:cursor-moved-without-observation", "last observed nonce is %d; last reset / observations of this epoch give %d", got, g.Cursor)
 	}
 	return nil
 }
@@ -633,7 +637,7 @@ func (e *env) ops(n *explore.Node) []explore.Op {
 			})
 		}
 	}
-	if g0.PowerPending == 0 && !g0.AfterOverride {
+	if g0.PowerPending == 0 && !g0.AfterOverride && os.Getenv("C02_NO_OVERRIDE") == "" {
 		last := e.cursor(n.Ctx)
 		for _, k := range []int64{int64(last) - 1, int64(last), int64(last) + 1} {
 			if k < 0 {
